@@ -26,11 +26,24 @@ type bitLoop struct {
 	init  ssa.Value // first bit
 	bound ssa.Value // one past the last bit
 	store ssa.Instruction
+	at    ssa.Instruction // the instruction of the analysed function through which the loop runs (the store, or the call of the helper that holds the loop)
 }
 
 // bitLoops finds loops of the form  for bn := A; bn < B; bn++ { S[bn/8] |= 1 << (bn%8) }.
-func bitLoops(fn *ssa.Function) []bitLoop {
+func bitLoops(top *ssa.Function) []bitLoop {
 	var out []bitLoop
+	for _, sc := range scopesOf(top) {
+		if sc.Via != nil && sc.Via.Parent() != top {
+			continue // one level of helper only
+		}
+		out = append(out, bitLoopsIn(sc)...)
+	}
+	return out
+}
+
+func bitLoopsIn(sc Scope) []bitLoop {
+	var out []bitLoop
+	fn := sc.Fn
 	for _, b := range fn.Blocks {
 		for _, in := range b.Instrs {
 			st, ok := in.(*ssa.Store)
@@ -100,9 +113,49 @@ func bitLoops(fn *ssa.Function) []bitLoop {
 				}
 			}
 			if bound == nil {
+				// rotated form (for bn := range N): pre-test init < N before the body, bottom test bn+1 < N
+				var inc ssa.Value
+				for _, e := range phi.Edges {
+					if add, ok := e.(*ssa.BinOp); ok && add.Op == token.ADD && add.X == ssa.Value(phi) {
+						inc = add
+					}
+				}
+				if ifi, ok := phi.Block().Instrs[len(phi.Block().Instrs)-1].(*ssa.If); ok && inc != nil {
+					if cmp, ok := ifi.Cond.(*ssa.BinOp); ok && cmp.Op == token.LSS && cmp.X == inc && phi.Block().Succs[0] == phi.Block() {
+						cand := cmp.Y
+						pre := false
+						for _, br := range branches(fn) {
+							if br.True != phi.Block() || br.Cond.Op != token.LSS || br.Cond.Y != cand {
+								continue
+							}
+							a, oka := constInt(br.Cond.X)
+							b, okb := constInt(init)
+							if !oka || !okb || a != b {
+								continue
+							}
+							only := true
+							for _, p := range phi.Block().Preds {
+								if p != br.Block && p != phi.Block() {
+									only = false
+								}
+							}
+							pre = only
+						}
+						// the body block is entered from the pre-test or from itself only
+						if pre {
+							bound = cand
+						}
+					}
+				}
+			}
+			if bound == nil {
 				continue
 			}
-			out = append(out, bitLoop{slice: ia.X, init: init, bound: bound, store: in})
+			at := ssa.Instruction(in)
+			if sc.Via != nil {
+				at = sc.Via
+			}
+			out = append(out, bitLoop{slice: sc.S.resolve(ia.X), init: sc.S.resolve(init), bound: sc.S.resolve(bound), store: in, at: at})
 		}
 	}
 	return out
@@ -124,7 +177,7 @@ func ruleK6(c *Ctx, id string) {
 	nbit := constOfPkg(P, jrnlPath+"/common", "NBITBLOCK")
 	loops := bitLoops(mark)
 	if len(loops) != 2 {
-		R.Pass(id, "nfs.markAlloc|bit loops", P.Pos(mark.Pos()), "the two bit-marking loops have the recognised form", fmt.Sprintf("form not recognised (%d loops): the bit arithmetic is NOT DECIDED on this tree (no claim)", len(loops)))
+		R.Undecided(id, "nfs.markAlloc|bit loops", P.Pos(mark.Pos()), "the two bit-marking loops have the recognised form (for bn := A; bn < B; bn++ { blk[bn/8] |= 1 << (bn%8) }, in markAlloc or a helper it calls)", fmt.Sprintf("%d loops of that form found: which bits this mkfs marks is not decided (a byte-wise or otherwise rewritten marking has to be re-confirmed by hand and the rule extended)", len(loops)))
 		return
 	}
 	var nP, mP *ssa.Parameter
@@ -159,10 +212,10 @@ func ruleK6(c *Ctx, id string) {
 		for _, in := range b.Instrs {
 			if k, ok := rawDiskOp(in); ok && k == "write" {
 				data := callCommon(in).Args[1]
-				if data == l1.slice {
+				if stripConv(data) == stripConv(l1.slice) {
 					w1 = in
 				}
-				if data == l2.slice {
+				if stripConv(data) == stripConv(l2.slice) {
 					w2 = in
 				}
 			}
@@ -172,11 +225,11 @@ func ruleK6(c *Ctx, id string) {
 		cl, ok := stripConv(v).(*ssa.Call)
 		return ok && cl.Call.StaticCallee() != nil && cl.Call.StaticCallee().Name() == "BitmapBlockStart"
 	}
-	okW1 := w1 != nil && isStart(callCommon(w1).Args[0]) && reachableFrom(l1.store, w1)
+	okW1 := w1 != nil && isStart(callCommon(w1).Args[0]) && reachableFrom(l1.at, w1)
 	R.Check(okW1, id, "nfs.markAlloc|head block written at BitmapBlockStart()", P.Pos(mark.Pos()), "the block marked by the first loop is written to the first bitmap block, after the loop", "address and order", "the head marks are written elsewhere or before they are made")
 	okW2 := false
 	var blkno ssa.Value
-	if w2 != nil && reachableFrom(l2.store, w2) {
+	if w2 != nil && reachableFrom(l2.at, w2) {
 		blkno = stripConv(callCommon(w2).Args[0])
 		if add, ok := blkno.(*ssa.BinOp); ok && add.Op == token.ADD {
 			for _, pr := range [][2]ssa.Value{{add.X, add.Y}, {add.Y, add.X}} {
